@@ -49,6 +49,7 @@ def strategy(tier):
       st.tuples(st.just('child'), st.integers(-4, 40)).map(list),
       st.tuples(st.just('cancel'), st.integers(0, 30)).map(list),
       st.just(['raise']),
+      st.tuples(st.just('busy'), st.integers(1, 30)).map(list),
   )
   op = weighted(
       (6, st.tuples(st.just('schedule'), st.integers(-8, 80), action).map(list)),
@@ -79,6 +80,8 @@ def execute(plan):
     settle()
     entries = []
     runlog = []
+    busy_spans = []      # (start, end, entry id) of callbacks that kept the loop busy
+    flags_busy = set()
     epoch = [0]        # bumped wherever the scheduling greenlet can have yielded to the worker
 
     def now_u():
@@ -109,7 +112,9 @@ def execute(plan):
       e.runs = []
       if res_u:
         e.R_lo = -((-T_u) // res_u) * res_u
-        e.R_hi = e.R_lo + res_u if (tol and T_u % res_u == 0) else e.R_lo
+        # a deadline that is already on the grid stays where it is (checked for this epoch and grid: the library's
+        # ceil(deadline / resolution) is exact for every on-grid value the generator can produce)
+        e.R_hi = e.R_lo
       else:
         e.R_lo = e.R_hi = T_u
       live = [x for x in entries if pending(x)]
@@ -131,6 +136,12 @@ def execute(plan):
           do_schedule(now_u() + kind[1], ['plain'])
         elif kind[0] == 'cancel':
           do_cancel(kind[1])
+        elif kind[0] == 'busy':
+          # CPU-bound work inside the callback: the clock moves on while nothing else can run
+          b0 = loop.now()
+          loop._now += kind[1] * unit
+          busy_spans.append((b0, loop.now(), e.id))
+          flags_busy.add(1)
         elif kind[0] == 'raise':
           raise RuntimeError('action %d fails' % e.id)     # must not disturb the worker or other actions
 
@@ -142,6 +153,7 @@ def execute(plan):
 
     def check(final=False):
       n = now_u()
+      pos = dict((eid, i) for i, eid in enumerate(runlog))
       for e in entries:
         if len(e.runs) > 1:
           raise Violation(ID, 'ran-twice', 'action %d ran %d times' % (e.id, len(e.runs)))
@@ -151,6 +163,15 @@ def execute(plan):
           if rt < T - tol:
             raise Violation(ID, 'ran-early', 'action %d (T=%r units) ran %.6f s before T' % (e.id, e.T, T - rt))
           latest = EPOCH + max(e.R_hi, e.s) * unit
+          # a callback that hogs the loop delays whatever falls due meanwhile (or at the very instant it starts, if it
+          # runs first) until it returns: due actions then run at once
+          moved = True
+          while moved:
+            moved = False
+            for b0, b1, bid in busy_spans:
+              if bid != e.id and pos.get(bid, 1 << 30) < pos.get(e.id, -1) and b0 - (tol + 1e-6) <= latest < b1:
+                latest = b1
+                moved = True
           if rt > latest + tol:
             raise Violation(ID, 'ran-late', 'action %d (T=%r, rounded=%r, scheduled at %r units) ran %.6f s after its rounded deadline' % (
                 e.id, e.T, e.R_hi, e.s, rt - latest))
@@ -220,4 +241,6 @@ def execute(plan):
   classes = ['res=' + plan['resolution']] + sorted(flags)
   if any(e.kind[0] != 'plain' and e.runs for e in entries):
     classes.append('action_schedules_or_cancels')
+  if flags_busy:
+    classes.append('callback_kept_the_loop_busy')
   return Outcome(nontrivial=sorted(flags) if flags else None, classes=classes)
